@@ -204,6 +204,12 @@ func checkC11(c *Ctx) {
 	c.Rule("C11-R18", "when the escape timer expires every parser gets its turn: no parser call of the collect loop sits behind a test of the pending-counter alone (rxvt's focus-out report ESC [ O is a prefix of its Ctrl-arrow keys: it is held back while they may complete, and must be taken for a focus report when the wait is over)")
 	c.Expect("C11-R18", 6)
 	checkParsersTriedOnExpiry(c, p, "C11-R18")
+	c.Rule("C11-R19", "the charset named by the locale is looked up as it is registered: RegisterEncoding and GetEncoding key the registry by the same normalisation of the name and nothing else maps names (a pattern that takes ISO-8859-15 for part 1 installs the wrong decoder; = C17-R6)")
+	c.Expect("C11-R19", 3)
+	c.asRule("C17-R6", "C11-R19", func() { c17Registry(c, p) })
+	c.Rule("C11-R20", "typed and pasted text is not dropped on the way to the queue: every select that sends a decoded event has only shutdown signals as alternatives (an alternative that does something else and lets the loop move on loses the event; = C05-R1)")
+	c.Expect("C11-R20", 1)
+	c.asRule("C05-R1", "C11-R20", func() { c05Sends(c, p) })
 	pr := p.Fn("tcell:(*tScreen).parseRune")
 	if pr == nil {
 		c.Undecided("C11-R1", "parseRune", "-", "not found")
